@@ -1659,6 +1659,7 @@ impl UntypedPattern {
             PatternEnum::NumUnsigned(n, suffix) => {
                 if let Some(ty) = &ty {
                     expect_num_type(ty, meta)?;
+                    expect_num_pattern_in_type(ty, Type::Unsigned(*suffix), *n, *n, meta)?;
                     PatternEnum::NumUnsigned(*n, *suffix)
                 } else {
                     return Err(vec![None]);
@@ -1667,6 +1668,7 @@ impl UntypedPattern {
             PatternEnum::NumSigned(n, suffix) => {
                 if let Some(ty) = &ty {
                     expect_signed_num_type(ty, meta)?;
+                    expect_num_pattern_in_type(ty, Type::Signed(*suffix), *n, *n, meta)?;
                     PatternEnum::NumSigned(*n, *suffix)
                 } else {
                     return Err(vec![None]);
@@ -1675,6 +1677,7 @@ impl UntypedPattern {
             PatternEnum::UnsignedInclusiveRange(from, to, suffix) => {
                 if let Some(ty) = &ty {
                     expect_num_type(ty, meta)?;
+                    expect_num_pattern_in_type(ty, Type::Unsigned(*suffix), *from, *to, meta)?;
                     PatternEnum::UnsignedInclusiveRange(*from, *to, *suffix)
                 } else {
                     return Err(vec![None]);
@@ -1683,6 +1686,7 @@ impl UntypedPattern {
             PatternEnum::SignedInclusiveRange(from, to, suffix) => {
                 if let Some(ty) = &ty {
                     expect_signed_num_type(ty, meta)?;
+                    expect_num_pattern_in_type(ty, Type::Signed(*suffix), *from, *to, meta)?;
                     PatternEnum::SignedInclusiveRange(*from, *to, *suffix)
                 } else {
                     return Err(vec![None]);
@@ -2394,6 +2398,38 @@ fn expect_num_type(ty: &Type, meta: MetaInfo) -> Result<(), TypeErrors> {
             TypeErrorEnum::ExpectedNumberType(ty.clone()),
             meta,
         ))]),
+    }
+}
+
+/// Checks that a number (range) pattern with the (possibly unspecified) type of its literals can
+/// be matched against a value of the specified number type.
+fn expect_num_pattern_in_type<N: Into<i128>>(
+    ty: &Type,
+    literal_ty: Type,
+    from: N,
+    to: N,
+    meta: MetaInfo,
+) -> Result<(), TypeErrors> {
+    let is_unspecified = matches!(
+        literal_ty,
+        Type::Unsigned(UnsignedNumType::Unspecified) | Type::Signed(SignedNumType::Unspecified)
+    );
+    let (min, max) = match ty {
+        Type::Unsigned(ty) => (Some(0), ty.max().map(i128::from)),
+        Type::Signed(ty) => (ty.min().map(i128::from), ty.max().map(i128::from)),
+        _ => (None, None),
+    };
+    let (from, to): (i128, i128) = (from.into(), to.into());
+    let is_in_range = min.is_none_or(|min| min <= from.min(to))
+        && max.is_none_or(|max| from.max(to) <= max);
+    if (is_unspecified || &literal_ty == ty) && is_in_range {
+        Ok(())
+    } else {
+        let e = TypeErrorEnum::UnexpectedType {
+            expected: ty.clone(),
+            actual: literal_ty,
+        };
+        Err(vec![Some(TypeError::new(e, meta))])
     }
 }
 
